@@ -67,7 +67,14 @@ def resident_blocks(mem):
 
 def _stats(mem):
     s = mem.get_cache_stats()
-    return int(s["hits"]), int(s["accesses"]), bool(s["last_hit"])
+    try:
+        return int(s["hits"]), int(s["accesses"]), bool(s["last_hit"])
+    except (TypeError, ValueError):
+        raise BadCounters(f"get_cache_stats() returned {s!r}: hits/accesses are not plain decimal numbers")
+
+
+class BadCounters(Exception):
+    """The statistics are what the front end prints: plain decimal numbers."""
 
 
 def check(case, stats, clauses, nontrivial):
@@ -88,6 +95,13 @@ def stepper(case, clauses, known_ops=()):
     cfg = case["cfg"]
     mem, pm = build(cfg)
     backing = mem.memory
+
+    def cstats():
+        try:
+            return _stats(mem)
+        except BadCounters as ex:
+            raise Violation("counter-format", case, str(ex))
+
     LO = cfg.get("lo", B)
     L = riscv_store(LO)
     models = {"alloc": RefCache(cfg["idx"], cfg["blk"], cfg["ways"], cfg["repl"], cfg["type"]),
@@ -99,8 +113,8 @@ def stepper(case, clauses, known_ops=()):
         _wr(mem, pw)(a, _fix(pw, v), directly_write_to_lower_memory=True)
         L.write(a, pw, v & ((1 << (8 * pw)) - 1))
         pool_words.add(a & M32 & ~3)
-    if "accounting" in clauses and _stats(mem) != (0, 0, False):
-        raise Violation("preload-counted", case, f"counters after preloads: {_stats(mem)}")
+    if "accounting" in clauses and cstats() != (0, 0, False):
+        raise Violation("preload-counted", case, f"counters after preloads: {cstats()}")
     for op in known_ops:
         if op[0] == "z":
             continue
@@ -164,7 +178,7 @@ def stepper(case, clauses, known_ops=()):
         crossing = (na & 3) + w > 4
         in_range = L.classify(addr, w) == "ok"
         accept = in_range and not crossing
-        h0, a0, last0 = _stats(mem)
+        h0, a0, last0 = cstats()
         c0 = pm.cycles
         counted = True if rw == "w" else bool(op[3])
         before = None
@@ -250,7 +264,7 @@ def stepper(case, clauses, known_ops=()):
             seen_evictions = ref.evictions
         if hits.get("alloc"):
             flags["hit"] = True
-        h1, a1, last = _stats(mem)
+        h1, a1, last = cstats()
         if "accounting" in clauses:
             if not counted:
                 if (h1, a1, last) != (h0, a0, last0) or pm.cycles != c0:
@@ -417,7 +431,11 @@ def history_case(draw, accepted_only=False, max_ops=60, small=None):
     if len(ops) >= 4 and draw(st.integers(0, 3)) == 0:
         # the memory system is reset in mid-history (a simulation object reused for a second program); the operations
         # after it revisit the same small address universe, so leftovers of the first half would show
-        ops.insert(draw(st.integers(2, len(ops) - 1)), ["z"])
+        p = draw(st.integers(2, len(ops) - 1))
+        if draw(st.booleans()):
+            # ... and before the reset the cache was only ever looked at (uncounted reads fill blocks but count nothing)
+            ops[:p] = [["r", o[1], o[2], False] for o in ops[:p]]
+        ops.insert(p, ["z"])
     return {"cfg": cfg, "pre": pre, "ops": ops}
 
 
